@@ -53,7 +53,7 @@ func (g *c14Gen) term() (N, string) {
 		pl.Fam = "common"
 		p.Times, p.Sides, p.Kind = 1+g.r.Int63n(4), 2+g.r.Int63n(19), g.r.Int63n(5)
 		if p.Kind != 0 {
-			p.Cnt = 1 + g.r.Int63n(p.Times)
+			p.Cnt = 1 + g.r.Int63n(p.Times+2) // also more than there are dice
 		}
 		switch g.r.Intn(5) {
 		case 0:
